@@ -749,6 +749,15 @@ func TestTreesReflectSource(t *testing.T) {
 				if d.Kind == "rule" {
 					d.RHS = addParens(t, d.RHS)
 				}
+				// token values that end in an escaped delimiter (the trees hold the text between the delimiters as written)
+				if d.Kind == "token" && rapid.IntRange(0, 3).Draw(t, "escapedDelimiter") == 0 {
+					switch d.TokKind {
+					case "regex":
+						d.Text = rapid.SampledFrom([]string{`\/`, `a\/`, `[a-z]+:\/\/`, `\/\*x\*\/`, `\/+b`}).Draw(t, "regexText")
+					case "string":
+						d.Text = rapid.SampledFrom([]string{`\"`, `q\"`, `\"\"`, `a\\`, `\"z`}).Draw(t, "stringText")
+					}
+				}
 				for _, h := range d.Handles {
 					if h.Rule != nil {
 						h.Rule.RHS = addParens(t, h.Rule.RHS)
